@@ -12,20 +12,24 @@ package main
 
 import (
 	"bytes"
+	"context"
 	"encoding/json"
 	"fmt"
 	"math/big"
 	"math/rand"
 	"os"
+	"regexp"
 	"sort"
 	"strings"
 	"sync"
+	"time"
 	"unicode/utf8"
 
 	"github.com/wundergraph/graphql-go-tools/execution/graphql"
 	"github.com/wundergraph/graphql-go-tools/v2/pkg/ast"
 	"github.com/wundergraph/graphql-go-tools/v2/pkg/astnormalization"
 	"github.com/wundergraph/graphql-go-tools/v2/pkg/astparser"
+	"github.com/wundergraph/graphql-go-tools/v2/pkg/engine/datasource/graphql_datasource"
 	"github.com/wundergraph/graphql-go-tools/v2/pkg/operationreport"
 )
 
@@ -860,6 +864,110 @@ func c15StreamDefaults(run *Run, r *rand.Rand) {
 // set of input templates and variable renderers).  Every subgraph request a client's execution sends must carry that
 // client's values and nobody else's.
 
+// omitted stays omitted at the subgraph boundary: a client request without any null variable (variables are supplied or left
+// out) must not make any subgraph request carry a null variable — for the fetches of a query and for the request that starts
+// a subscription alike (federation bench, layout L1S of C14)
+func c15StreamOmitted(run *Run, r *rand.Rand) {
+	l, err := c14SubLayout()
+	if err != nil {
+		run.Violate(Violation{Kind: "oracle", Clause: "layout_builds", Detail: err.Error()}, "")
+		return
+	}
+	u := fedL1Universe(r)
+	var op string
+	var vars []byte
+	subscription := r.Intn(2) == 0
+	if subscription {
+		op, vars = c14GenSubscription(r, l.super, u)
+	} else {
+		op, vars, _ = fedGenOperation(r, l.super, u)
+	}
+	// no explicit null among the client's variables; nullable ones are left out half of the time
+	var cv map[string]any
+	dec := json.NewDecoder(strings.NewReader(string(vars)))
+	dec.UseNumber()
+	if dec.Decode(&cv) != nil {
+		return
+	}
+	keys := make([]string, 0, len(cv))
+	for k := range cv {
+		keys = append(keys, k)
+	}
+	sort.Strings(keys)
+	for _, k := range keys {
+		if cv[k] == nil {
+			delete(cv, k)
+			continue
+		}
+		// declared nullable and without a default: may be left out
+		if m := regexp.MustCompile(`\$` + regexp.QuoteMeta(k) + `: ([^,)=]+)[,)]`).FindStringSubmatch(op); m != nil && !strings.HasSuffix(strings.TrimSpace(m[1]), "!") && r.Intn(2) == 0 {
+			delete(cv, k)
+		}
+	}
+	vars, _ = json.Marshal(cv)
+	in := map[string]any{"operation": op, "variables": string(vars), "stream": "omitted"}
+	eng, err := fedNewEngine(l, fedEngineOpts{subClient: func(fe *fedEngine) graphql_datasource.GraphQLSubscriptionClient {
+		return &c14SubClient{fe: fe, events: 1}
+	}})
+	if err != nil {
+		run.Violate(Violation{Kind: "oracle", Clause: "engine_builds", Input: in, Detail: err.Error()}, "")
+		return
+	}
+	defer eng.cancel()
+	sess := &fedSession{layout: l, universe: u, pool: run.Pool}
+	var log []fedExchange
+	if subscription {
+		eng.mu.Lock()
+		eng.sess = sess
+		eng.mu.Unlock()
+		w := &c14SubWriter{}
+		req := graphql.Request{Query: op, OperationName: "Q", Variables: vars}
+		ctx, cancel := context.WithTimeout(context.Background(), 10*time.Second)
+		done := make(chan error, 1)
+		go func() { done <- eng.eng.Execute(ctx, &req, w) }()
+		select {
+		case err := <-done:
+			if err != nil {
+				cancel()
+				run.Feat("omitted:execute_error")
+				return
+			}
+		case <-time.After(12 * time.Second):
+			cancel()
+			run.Violate(Violation{Kind: "oracle", Clause: "subscription_ends", Input: in, Detail: "the subscription did not end within 12s"}, "")
+			return
+		}
+		cancel()
+		sess.mu.Lock()
+		log = append(log, sess.log...)
+		sess.mu.Unlock()
+	} else {
+		resp := eng.run(sess, op, "Q", vars)
+		if resp.Err != nil {
+			run.Feat("omitted:execute_error")
+			return
+		}
+		log = resp.Log
+	}
+	for _, ex := range log {
+		var fv map[string]any
+		if json.Unmarshal(ex.Variables, &fv) != nil {
+			continue
+		}
+		for k, v := range fv {
+			if v == nil {
+				run.Violate(Violation{Kind: "oracle", Clause: "omitted_stays_omitted_at_the_subgraph", Input: in, Impl: ex,
+					Detail: fmt.Sprintf("the client sent no null variable (%s), yet subgraph %s receives %s = null with %s", vars, ex.Subgraph, k, truncate(ex.Query, 300))}, "")
+				return
+			}
+		}
+	}
+	run.Feat(map[bool]string{true: "omitted:subscription", false: "omitted:query"}[subscription])
+	run.mu.Lock()
+	run.TracesVsImpl++
+	run.mu.Unlock()
+}
+
 func c15StreamConcurrent(run *Run, r *rand.Rand) {
 	layouts, err := fedGetLayouts()
 	if err != nil {
@@ -969,6 +1077,9 @@ func runC15(run *Run, replay string) Spec {
 		}
 		if k%40 == 0 {
 			c15StreamConcurrent(run, r)
+		}
+		if k%25 == 7 {
+			c15StreamOmitted(run, r)
 		}
 		if k < 3 {
 			run.Sample(map[string]any{"operation": op, "variables": string(vars)})
